@@ -154,6 +154,18 @@ def shard(col, shard_i, ngrammars, ninputs):
                 cases.append(R.Case(tpl, t, None, settings, tag='base'))
                 metas.append(None)
             col.count('family.constant-then-no-skip')
+        if gi % 5 == 1:
+            # a join / gather whose ELEMENT does not skip whitespace itself (pattern, upper-case rule): none is skipped after a separator
+            el = rng.choice([('pat', r'\d'), ('pat', r'[a-z]+'), ('call', 'Up'), ('call', '_Up')])
+            sep = ('tok', rng.choice([',', ';']))
+            rp = ('rep', rng.random() < 0.5, sep, rng.random() < 0.5, el)
+            tpl = {'rules': [('start', [], ('seq', [rp, 'eof'])), ('Up', [], ('pat', r'[a-z0-9]')), ('_Up', [], ('pat', r'[a-z0-9]'))],
+                   'directives': dict(g['directives']), 'keywords': []}
+            sp = sep[1]
+            for t in [f'1{sp}2', f'1{sp} 2', f'1 {sp}2', f'1 {sp} 2', f'a{sp}\tb{sp}c', f'a{sp}b{sp} c', '1', '', f' 1{sp}2 ', f'1{sp}\n2']:
+                cases.append(R.Case(tpl, t, None, settings, tag='base'))
+                metas.append(None)
+            col.count('family.join-element-no-skip')
         # parses that START at an upper-case (token) rule: no whitespace is skipped at its entry, also when it is the start rule
         uppers = [n for n, _, _ in g['rules'] if n.lstrip('_')[:1].isupper()]
         if uppers and ws != 'off':
